@@ -75,8 +75,11 @@ def hash_contraction_b(inputs, output, size_dict):
         (sortedtuple(nodes), size_dict[ix]) for ix, nodes in edges.items()
     )
 
+    # n.b. need the number of tensors too, since scalars have no edges
     return hashlib.sha1(
-        pickle.dumps((canonical_edges, sortedtuple(size_dict.items())))
+        pickle.dumps(
+            (len(inputs), canonical_edges, sortedtuple(size_dict.items()))
+        )
     ).hexdigest()
 
 
